@@ -11,6 +11,7 @@ import (
 	"net/http/httptest"
 	"os"
 	"path/filepath"
+	"sort"
 	"strconv"
 	"strings"
 	"sync"
@@ -86,7 +87,14 @@ type gstate struct {
 	inner  map[string][]byte // mh hex -> bytes in the plain blockstore
 	cids   []cid.Cid         // CIDs ever used (request pool)
 	hseen  map[string]bool
+	bad    map[string]bool // multihashes whose reference is an undecodable protobuf
 	reader string
+}
+
+func (g *gstate) has(m string) bool {
+	_, a := g.inner[m]
+	_, b := g.refs[m]
+	return a || b || g.bad[m]
 }
 
 func (g *gstate) emit(f string, a ...any) { g.ops = append(g.ops, fmt.Sprintf(f, a...)) }
@@ -195,7 +203,7 @@ func gen(r *vh.Rand, tier string, n int, emit func(vh.Case)) {
 	for i := 0; i < n; i++ {
 		rr := r.Fork()
 		g := &gstate{r: rr, files: map[string]*gfile{}, urls: map[string]*gurl{}, refs: map[string]*gref{},
-			inner: map[string][]byte{}, hseen: map[string]bool{}}
+			inner: map[string][]byte{}, hseen: map[string]bool{}, bad: map[string]bool{}}
 		af, au := !rr.Chance(1, 12), !rr.Chance(1, 8)
 		g.reader = "std"
 		if rr.Chance(1, 3) {
@@ -239,6 +247,7 @@ func gen(r *vh.Rand, tier string, n int, emit func(vh.Case)) {
 				}
 				c := g.mkCid(u.content[off : off+size])
 				g.refs[vh.Hex(c.Hash())] = &gref{name, off, size}
+				delete(g.bad, vh.Hex(c.Hash()))
 				g.emit("ref %s %s %d %d", vh.Hex(c.Hash()), name, off, size)
 				return
 			}
@@ -256,8 +265,16 @@ func gen(r *vh.Rand, tier string, n int, emit func(vh.Case)) {
 			}
 			c := g.mkCid(honest)
 			if rr.Chance(2, 3) {
+				if rr.Chance(1, 3) { // through Filestore.Put (skipped when Has says the block is there)
+					if af && !g.has(vh.Hex(c.Hash())) {
+						g.refs[vh.Hex(c.Hash())] = &gref{name, off, uint64(len(honest))}
+					}
+					g.emit("%s %s %s %d %s", vh.Pick(rr, []string{"fsputn", "fsputnm"}), cidStr(c), name, off, vh.Hex(honest))
+					return
+				}
 				if af {
 					g.refs[vh.Hex(c.Hash())] = &gref{name, off, uint64(len(honest))}
+					delete(g.bad, vh.Hex(c.Hash()))
 				}
 				g.emit("fput %s %s %d %s", cidStr(c), name, off, vh.Hex(honest))
 			} else {
@@ -275,6 +292,7 @@ func gen(r *vh.Rand, tier string, n int, emit func(vh.Case)) {
 					rf.size = 0
 				}
 				g.refs[vh.Hex(c.Hash())] = rf
+				delete(g.bad, vh.Hex(c.Hash()))
 				g.emit("ref %s %s %d %d", vh.Hex(c.Hash()), rf.path, rf.off, rf.size)
 			}
 		}
@@ -287,8 +305,28 @@ func gen(r *vh.Rand, tier string, n int, emit func(vh.Case)) {
 		}
 		for j := 0; j < steps; j++ {
 			switch k := rr.Intn(100); {
-			case k < 40:
+			case k < 32:
 				g.get()
+			case k < 40 && len(g.cids) > 0: // the unverified queries and the Filestore's own Put/Delete/AllKeysChan
+				c := vh.Pick(rr, g.cids)
+				m := vh.Hex(c.Hash())
+				switch q := rr.Intn(10); {
+				case q < 6:
+					g.emit("%s %s", vh.Pick(rr, []string{"fmhas", "fmsize", "fshas", "fssize"}), cidStr(c))
+				case q == 6:
+					delete(g.refs, m)
+					delete(g.bad, m)
+					delete(g.inner, m)
+					g.emit("fsdel %s", cidStr(c))
+				case q == 7:
+					d := rr.Bytes(rr.Intn(10))
+					if !g.has(m) {
+						g.inner[m] = d
+					}
+					g.emit("%s %s %s", vh.Pick(rr, []string{"fsput", "fsputm"}), cidStr(c), vh.Hex(d))
+				default:
+					g.emit("fskeys")
+				}
 			case k < 48: // single-byte flip
 				name := vh.Pick(rr, names[:3])
 				if f := g.files[name]; f != nil && f.kind == "file" && len(f.data) > 0 {
@@ -322,9 +360,11 @@ func gen(r *vh.Rand, tier string, n int, emit func(vh.Case)) {
 				m := vh.Hex(vh.Pick(rr, g.cids).Hash())
 				if rr.Bool() {
 					delete(g.refs, m)
+					delete(g.bad, m)
 					g.emit("refdel %s", m)
 				} else {
 					delete(g.refs, m)
+					g.bad[m] = true
 					g.emit("refbad %s", m)
 				}
 			case k < 84:
@@ -361,6 +401,10 @@ func gen(r *vh.Rand, tier string, n int, emit func(vh.Case)) {
 		for j := 0; j < 3; j++ {
 			g.get()
 		}
+		// IsURL on boundary strings (exactly 7/8 characters, wrong scheme, upper case, ...)
+		g.emit("isurl %s", vh.Hex([]byte(vh.Pick(rr, []string{"http://", "http://a", "https://", "https://a", "http:/a/b", "httpx://aa",
+			"h", "HTTP://a.b", "http:///", "https:/x/yz", "httpss://a", "ftp://abcde", "http//abcd", "https//abcd", "a.bin",
+			"http:", "https:///", "http://" + string(rr.Bytes(3))}))))
 		emit(vh.Case{ID: strconv.Itoa(i), Ops: g.ops})
 	}
 }
@@ -457,6 +501,9 @@ func outOf(b blocks.Block, err error) string {
 	case errors.Is(err, blockstore.ErrHashMismatch):
 		return "mismatch"
 	case errors.As(err, &cre):
+		if cre.Error() == "" {
+			return "error"
+		}
 		switch cre.Code {
 		case filestore.StatusFileNotFound:
 			return "filenotfound"
@@ -516,6 +563,9 @@ func exec(c vh.Case, o *vh.Out) {
 			allowFiles = fm.AllowFiles
 			reader = f[3]
 			fst = filestore.NewFilestore(inner, fm, nil)
+			if fst.FileManager() != fm || fst.MainBlockstore() != inner {
+				o.Fail("filestore-accessors", "FileManager()/MainBlockstore() do not return the constructor arguments")
+			}
 			o.Kind("reader-" + f[3])
 			o.Emit("ok")
 		case "h":
@@ -588,6 +638,113 @@ func exec(c vh.Case, o *vh.Out) {
 			default:
 				o.Emit("error")
 			}
+		case "isurl":
+			o.Kind("isurl")
+			o.Emit("%v", filestore.IsURL(string(vh.UnHex(f[1]))))
+		case "fmhas", "fshas":
+			var b bool
+			var err error
+			if f[0] == "fmhas" {
+				b, err = fm.Has(ctx, parseCid(f[1]))
+			} else {
+				b, err = fst.Has(ctx, parseCid(f[1]))
+			}
+			o.Kind(f[0])
+			if err != nil {
+				o.Emit("error")
+			} else {
+				o.Emit("%v", b)
+			}
+		case "fmsize", "fssize":
+			var n int
+			var err error
+			if f[0] == "fmsize" {
+				n, err = fm.GetSize(ctx, parseCid(f[1]))
+			} else {
+				n, err = fst.GetSize(ctx, parseCid(f[1]))
+			}
+			o.Kind(f[0])
+			switch {
+			case err == nil:
+				o.Emit("size %d", n)
+			case ipld.IsNotFound(err):
+				o.Emit("notfound")
+			default:
+				o.Emit("error")
+			}
+		case "fsdel":
+			delete(honestPuts, vh.Hex(parseCid(f[1]).Hash()))
+			delete(urlRefs, vh.Hex(parseCid(f[1]).Hash()))
+			o.Kind("fsdel")
+			emitErr(o, fst.DeleteBlock(ctx, parseCid(f[1])))
+		case "fsput", "fsputm":
+			b, _ := blocks.NewBlockWithCid(vh.UnHex(f[2]), parseCid(f[1]))
+			o.Kind(f[0])
+			if f[0] == "fsputm" { // the same through PutMany
+				emitErr(o, fst.PutMany(ctx, []blocks.Block{b}))
+			} else {
+				emitErr(o, fst.Put(ctx, b))
+			}
+		case "fsputn", "fsputnm":
+			k := parseCid(f[1])
+			off, _ := strconv.ParseUint(f[3], 10, 64)
+			data := vh.UnHex(f[4])
+			rn, _ := dag.NewRawNodeWPrefix(data, cid.V1Builder{Codec: cid.Raw, MhType: mh.SHA2_256})
+			node := &posinfo.FilestoreNode{Node: fakeNode{rn, k}, PosInfo: &posinfo.PosInfo{FullPath: filepath.Join(root, f[2]), Offset: off}}
+			had, _ := fst.Has(ctx, k)
+			var err error
+			if f[0] == "fsputnm" {
+				err = fst.PutMany(ctx, []blocks.Block{node})
+			} else {
+				err = fst.Put(ctx, node)
+			}
+			o.Kind(f[0])
+			switch {
+			case err == nil:
+				m := vh.Hex(k.Hash())
+				if !had {
+					delete(honestPuts, m)
+					delete(urlRefs, m)
+					if verdict(cid.NewCidV1(cid.Raw, k.Hash()), data) == "eq" {
+						honestPuts[m] = &putInfo{f[2], off, data}
+					}
+				}
+				o.Emit("ok")
+			case errors.Is(err, filestore.ErrFilestoreNotEnabled):
+				o.Emit("notenabled")
+			default:
+				o.Emit("error")
+			}
+		case "fskeys":
+			ch, err := fst.AllKeysChan(ctx)
+			if err != nil {
+				o.Emit("error")
+				continue
+			}
+			var ks []string
+			for k := range ch {
+				ks = append(ks, vh.Hex(k.Hash()))
+			}
+			sort.Strings(ks)
+			o.Kind("fskeys")
+			// the validating wrapper enumerates exactly what its inner blockstore enumerates
+			vch, verrFn, verr := (&blockstore.ValidatingBlockstore{Blockstore: inner}).AllKeysChanWithErr(ctx)
+			ich, _ := inner.AllKeysChan(ctx)
+			if verr == nil {
+				var a, b []string
+				for k := range vch {
+					a = append(a, k.String())
+				}
+				for k := range ich {
+					b = append(b, k.String())
+				}
+				sort.Strings(a)
+				sort.Strings(b)
+				if verrFn() != nil || strings.Join(a, ",") != strings.Join(b, ",") {
+					o.Fail("validating-allkeys", "ValidatingBlockstore.AllKeysChanWithErr = %v, inner %v", a, b)
+				}
+			}
+			o.Emit("keys %s", strings.Join(ks, ","))
 		case "vget", "fmget", "fsget":
 			k := parseCid(f[1])
 			var b blocks.Block
@@ -602,6 +759,11 @@ func exec(c vh.Case, o *vh.Out) {
 			}
 			res := outOf(b, err)
 			o.Kind(f[0] + "-" + strings.SplitN(res, ":", 2)[0])
+			if _, isURL := urlRefs[vh.Hex(k.Hash())]; isURL && f[0] != "vget" {
+				o.Kind("url-ref-" + strings.SplitN(res, ":", 2)[0])
+			} else if f[0] == "fmget" {
+				o.Kind(reader + "-file-ref-" + strings.SplitN(res, ":", 2)[0])
+			}
 			fromInner := false
 			if f[0] == "fsget" {
 				if has, _ := inner.Has(ctx, k); has {
